@@ -62,6 +62,11 @@ def cases(tier, seed):
     for r in range(60 if tier == "quick" else 600):
         out.append({"kind": "h", "cls": "sparse", "idx": idx, "seed": seed, "maxn": maxn, "n": 9 + r % (8 if tier == "quick" else 16)})
         idx += 1
+    # size ladder beyond plausible panel widths (8 / 16 / 32; n, n-1, n-2 multiples of 16)
+    for n in ([9, 12, 16, 17, 18, 19, 24, 33, 34] if tier == "quick" else list(range(9, 37)) + [48, 49, 50, 64, 65, 66]):
+        for cls in ("gauss", "hermitian", "int") if tier == "quick" else ("gauss", "hermitian", "int", "near_hessenberg", "sparse", "upper_tri"):
+            out.append({"kind": "h", "cls": cls, "idx": idx, "seed": seed, "maxn": maxn, "n": n})
+            idx += 1
     # fixed witness of defect 10.1/C09 (found by the thorough tier): 12 x 12, three non-zero entries of ordinary size
     out.append({"kind": "h", "cls": "sparse", "idx": 3331, "seed": 0, "maxn": 20})
     # exact power-of-two scalings into the range where squares of the entries under- or overflow
